@@ -429,13 +429,19 @@ def gen_reuse(rng, family=None):
     Operands live in distinct forests where the operation allows it."""
     ctx = Ctx(rng)
     family = family or rng.choice(["set", "cross", "arith", "image"])
+    # "set-ir": set operations with both operands in DISTINCT identity-reduced relation
+    # forests (the operations keep a second compute table for primed-level pairs there),
+    # the volatile operand's forest reclaiming at once
+    both_ir = (family == "set-ir")
+    if both_ir:
+        family = "set"
     ctx.emit("init " + (rand_ctopts(rng) if rng.random() < 0.5 else ""))
     if family in ("cross", "image"):
         d = rand_domain(rng, "D", False, 27, 3)
     else:
-        d = rand_domain(rng, "D", rng.random() < 0.5, 200, 3)
+        d = rand_domain(rng, "D", both_ir or rng.random() < 0.5, 200, 3)
     ctx.emit(d.decl())
-    rel = family not in ("cross", "image") and (len(d.sizes) <= 3 and rng.random() < 0.5)
+    rel = both_ir or (family not in ("cross", "image") and (len(d.sizes) <= 3 and rng.random() < 0.5))
     if family == "set":
         rg = "bool"
     elif family == "arith":
@@ -458,6 +464,13 @@ def gen_reuse(rng, family=None):
         fb = mkf("FB", True, "bool", rng.choice(["", "", "del=pess"]))
         fr = mkf("FR", False, "bool")
         ops = ["post", "pre"]
+    elif both_ir:
+        fa = Forest("FA", d, True, rg, "mt", "ir", rand_opts(rng))
+        fb = Forest("FB", d, True, rg, "mt", "ir", rng.choice(["del=pess", "del=pess", "del=opt", ""]))
+        ctx.emit(fa.decl())
+        ctx.emit(fb.decl())
+        fr = rng.choice([fa, fb, mkf("FR", True, rg)])
+        ops = SETOPS
     else:
         fa, fb = mkf("FA", rel, rg), mkf("FB", rel, rg, rng.choice(["", "", "del=pess", "del=opt"]))
         fr = rng.choice([fa, fb, mkf("FR", rel, rg)])
@@ -465,6 +478,11 @@ def gen_reuse(rng, family=None):
             else ["plus", "minus", "max", "min"]
     # the persistent operand
     gen_coll(ctx, fa, "A", nmax=8)
+    if both_ir:
+        # the persistent operand's forest holds many more live nodes than the volatile one's
+        # (a handle number of the volatile forest then names some live node here)
+        for i in range(rng.randint(3, 8)):
+            gen_rel_minterms(ctx, fa, "X%d" % i, nmax=2, p_dc=rng.choice([0, 0.3]), p_same=rng.choice([0, 0.3]))
     swap = rng.random() < 0.3 and family in ("set", "arith")
     keep = rng.random() < 0.5
     for rnd in range(rng.randint(3, 8)):
@@ -1059,6 +1077,63 @@ def gen_counter(rng):
     return "\n".join(L) + "\n"
 
 
+def gen_setops_two_ir(rng):
+    """set operations whose operands live in two DISTINCT identity-reduced relation
+    forests and meet at a primed level (same 'from' values, different 'to' values): the
+    operations cache primed-level pairs in a second table.  The second operand is rebuilt
+    with another 'to' value every round (its primed node's handle is recycled at once
+    under pessimistic deletion, or after the table is cleared), the first operand's forest
+    holds many more live nodes"""
+    ctx = Ctx(rng)
+    ctx.emit("init " + (rand_ctopts(rng) if rng.random() < 0.5 else ""))
+    k = rng.choice([1, 1, 2])
+    sizes = [rng.choice([3, 3, 4]) for _ in range(k)]
+    d = Domain("D", sizes)
+    ctx.emit(d.decl())
+    fa = Forest("FA", d, True, "bool", "mt", "ir", rand_opts(rng))
+    pess = rng.random() < 0.6
+    fb = Forest("FB", d, True, "bool", "mt", "ir", "del=pess" if pess else rng.choice(["", "del=opt"]))
+    fr = Forest("FR", d, True, "bool", "mt", "ir", rand_opts(rng))
+    for f in (fa, fb, fr):
+        ctx.emit(f.decl())
+    # many live nodes in FA: every off-diagonal pair pattern
+    n = 0
+    for i in range(sizes[0]):
+        for j in range(sizes[0]):
+            if i != j and rng.random() < 0.8:
+                pos = []
+                for sz in sizes:
+                    pos += [str(i % sz), str(j % sz)]
+                ctx.emit("coll X%d FA max 0 ; %s => 1" % (n, " ".join(pos)))
+                n += 1
+    frm = [rng.randrange(sz) for sz in sizes]
+
+    def pat(to):
+        pos = []
+        for v, sz in enumerate(sizes):
+            pos += [str(frm[v]), str(to[v])]
+        return " ".join(pos)
+
+    def other_to():
+        return [rng.choice([x for x in range(sz) if x != frm[v]] or [0]) for v, sz in enumerate(sizes)]
+
+    ctx.emit("coll A FA max 0 ; %s => 1" % pat(other_to()))
+    ops = ["union", "union", "inter", "diff"]
+    result_f = rng.choice([fr, fr, fa, fb])
+    for rnd in range(rng.randint(3, 7)):
+        ctx.emit("coll B FB max 0 ; %s => 1" % pat(other_to()))
+        a, b = ("A", "B") if rng.random() < 0.8 else ("B", "A")
+        ctx.emit("apply C%d %s %s %s %s" % (rnd, result_f.name, rng.choice(ops), a, b))
+        ctx.emit("release B")
+        if not pess and rng.random() < 0.7:
+            ctx.emit("clearct FB")
+        if rng.random() < 0.5:
+            ctx.emit("release C%d" % rnd)
+        if rng.random() < 0.2:
+            ctx.emit("show A")
+    return ctx.text()
+
+
 def gen_C06_nodes(rng, nops=None):
     """node-level histories on a quasi-reduced forest with pessimistic deletion:
     nodes created through unpacked nodes (duplicates found in the unique table,
@@ -1274,7 +1349,10 @@ def gen_C09(rng):
     ints = rng.random() < 0.35
     rg = "int" if ints else "bool"
     sets = [Forest("S%d" % i, d, False, rg, "mt", rng.choice(RULES_SET), rand_opts(rng)) for i in range(rng.choice([1, 2]))]
-    rels = [Forest("R%d" % i, d, True, rg, "mt", rng.choice(RULES_REL), rand_opts(rng)) for i in range(rng.choice([1, 2, 3]))]
+    # vector-matrix products: the matrix may be a boolean relation (a transition relation)
+    # while the vector and the result are integer
+    rels = [Forest("R%d" % i, d, True, ("bool" if (ints and rng.random() < 0.4) else rg), "mt",
+                   rng.choice(RULES_REL), rand_opts(rng)) for i in range(rng.choice([1, 2, 3]))]
     for f in sets + rels:
         ctx.emit(f.decl())
     local = rng.random() < 0.5
